@@ -38,7 +38,7 @@ var lay = layouts[0]
 func lastSeg(s string) string { return s[strings.LastIndex(s, "/")+1:] }
 
 // behaviours of a generator for the (single enabled) type T of each package
-var behaviours = []string{"render", "nothing", "skip", "ignore", "ignore+render", "render-only-in-defer"}
+var behaviours = []string{"render", "nothing", "skip", "ignore", "ignore+render", "render-only-in-defer", "blank-lines-only"}
 
 func action(b string) pipe.Action {
 	switch b {
@@ -55,6 +55,9 @@ func action(b string) pipe.Action {
 	case "render-only-in-defer":
 		// collect-then-emit: nothing from GenerateType, everything from a Defer callback
 		return pipe.Action{Defers: []pipe.Action{{Render: "var V_$T_$G = 3\n"}}}
+	case "blank-lines-only":
+		// the generator writes, but nothing a parser would see (a template whose conditions were all false)
+		return pipe.Action{Render: "\n\n"}
 	}
 	panic(b)
 }
@@ -238,6 +241,14 @@ func checkCase(c *core.Ctx, cs Case) {
 					if was && before[f] != after[f] {
 						c.Fail("", cs, "run %d: %s signalled ErrIgnore and rendered nothing but %s changed", ri+1, g, f)
 					}
+				}
+				if b == "blank-lines-only" {
+					// "it rendered" and "it rendered nothing" are both defensible readings, so the file may
+					// be rewritten (without declarations) or deleted; what it may not do is survive as it was
+					if is && strings.Contains(after[f], "var ") {
+						c.Fail("C07-blank-output-leaves-previous-file", cs, "run %d (%+v): %s rendered only blank lines, yet %s still holds the declarations of an earlier run (neither rewritten nor deleted)", ri+1, r, g, f)
+					}
+					continue
 				}
 				if is != want {
 					c.Fail("", cs, "run %d (%+v): %s exists=%v, model says %v (behaviour %q, existed before=%v)", ri+1, r, f, is, want, b, was)
